@@ -233,6 +233,31 @@ def rule_memoisation(ctx: Ctx, out: Collector) -> None:
                     if takes_state:
                         out.bad('SH-5', cons, p.loc(unit, dec), f'@{last} on a function of the run path caches objects across '
                                                                 f'runs (node instances / dag / context)', props={'C07', 'C08'})
+    # SH-9: what a memoised method returns must be a function of the immutable description: it reads no run state
+    storage = ctx.storage_class()
+    for c in p.mro(mgr):
+        if not isinstance(c, ClassInfo):
+            continue
+        for m in c.methods.values():
+            decs = [((dotted(d.func) if isinstance(d, ast.Call) else dotted(d)) or '').split('.')[-1] for d in m.node.decorator_list]
+            if not any(d in ('cachedmethod', 'cached', 'lru_cache', 'cache') for d in decs):
+                continue
+            g = ctx.graph(m.fid, depth=4)
+            reads = []
+            for ev in g.events('call'):
+                for t in ev.info.get('targets', ()):
+                    if t[0] == 'func' and t[1].cls is not None and (t[1].cls is storage or storage in [x for x in p.mro(t[1].cls)
+                                                                                                        if isinstance(x, ClassInfo)]):
+                        reads.append(ev)
+            cons = f'{m.module.name}::{m.qualname}::a memoised result does not depend on run state [memoised-pure]'
+            if not reads:
+                out.ok('SH-9', cons, p.loc(m, m.node), 'reads only the DAG description')
+            else:
+                ev = reads[0]
+                out.bad('SH-9', cons, ev.where(), f'the memoised method reads the node storage ({ev.text(80)}): results, switch verdicts and '
+                        f'processed marks change during a run (a recurrent re-iteration re-arms them), so the value cached at the first call '
+                        f'is stale afterwards - e.g. a consumer keeps receiving the case selected in the first iteration',
+                        [f'{ev.where()} {ev.text()}', f'reached through {ev.inst.chain()}'], props={'C03', 'C09', 'C11'})
     if count == 0:
         out.note('SH-5: no memoised method on the manager')
     out.count('memoised_methods', count)
